@@ -680,7 +680,7 @@ def run_bounded(ctx: Ctx) -> Report:
             sh = exhaustive_shapes(n, me)
             add(n, sh, allv)
             desc.append(f"all {len(sh)} canonical shapes with {n} nodes, <= {me} edges (4 variants each)")
-        for n, me, cnt, mn in [(2, 4, 3000, 4), (3, 4, 20000, 3), (4, 4, 40000, 1), (5, 4, 40000, 2)]:
+        for n, me, cnt, mn in [(2, 4, 3000, 4), (3, 4, 15000, 3), (4, 4, 30000, 1), (5, 4, 30000, 2)]:
             sh = sampled_shapes(n, me, cnt, ctx.rng(f"shapes{n}"), mn)
             add(n, sh, cyc)
             desc.append(f"{len(sh)} seeded canonical shapes with {n} nodes, {mn}..{me} edges")
